@@ -1,6 +1,7 @@
 /-
   Jp.Spec.Features — semantics of the generated feature-gate table (C20). Import-free.
-  A feature subset is a bitmask over the eight real features; `closure` adds the declared
+  A feature subset is a bitmask over the crate's features (`Table.nFeat` of them, read from Cargo.toml by the
+  translator: the eight of the pinned tree, plus whatever a later tree declares); `closure` adds the declared
   implications; a row is *live* when all its enclosing `cfg` gates hold and *satisfied* when what it
   refers to (an optional crate, a gated module of the crate, a feature-gated method) is available.
 -/
@@ -28,6 +29,7 @@ structure Row where
 deriving Repr
 
 structure Table where
+  nFeat : Nat
   featEdges : List (Nat × Nat)
   depEdges : List (Nat × Nat)
   modGates : List Cfg
@@ -39,9 +41,9 @@ def has (S : Nat) (i : Nat) : Bool := S.testBit i
 def stepClosure (edges : List (Nat × Nat)) (S : Nat) : Nat :=
   edges.foldl (fun acc e => if has acc e.1 then acc ||| (1 <<< e.2) else acc) S
 
-/-- the closure of a subset of the 8 features (8 rounds reach the fixed point) -/
-def closure (edges : List (Nat × Nat)) (S : Nat) : Nat :=
-  (List.range 8).foldl (fun acc _ => stepClosure edges acc) S
+/-- the closure of a subset of `n` features (`n` rounds reach the fixed point) -/
+def closure (n : Nat) (edges : List (Nat × Nat)) (S : Nat) : Nat :=
+  (List.range n).foldl (fun acc _ => stepClosure edges acc) S
 
 def Cfg.eval (S : Nat) : Cfg → Bool
   | .tt => true
@@ -61,12 +63,12 @@ def available (T : Table) (S : Nat) : Need → Bool
 
 /-- every live reference is satisfied -/
 def builds (T : Table) (mask : Nat) : Bool :=
-  let S := closure T.featEdges mask
+  let S := closure T.nFeat T.featEdges mask
   T.rows.all fun r => !(r.gates.all (·.eval S)) || available T S r.need
 
 /-- the first unsatisfied row of a subset, for the replay -/
 def firstFailing (T : Table) (mask : Nat) : Option Nat :=
-  let S := closure T.featEdges mask
+  let S := closure T.nFeat T.featEdges mask
   (List.range T.rows.length).find? fun i =>
     match T.rows[i]? with
     | some r => r.gates.all (·.eval S) && !(available T S r.need)
